@@ -19,6 +19,8 @@ pub mod c15;
 pub mod c16;
 pub mod c17;
 pub mod c18;
+pub mod c19;
+pub mod c20;
 
 pub fn run(id: &str, rep: &mut Report) -> bool {
     match id {
@@ -40,6 +42,8 @@ pub fn run(id: &str, rep: &mut Report) -> bool {
         "C16" => c16::run(rep),
         "C17" => c17::run(rep),
         "C18" => c18::run(rep),
+        "C19" => c19::run(rep),
+        "C20" => c20::run(rep),
         _ => return false,
     }
     true
@@ -66,6 +70,8 @@ pub fn replay(id: &str, v: &Value) -> i32 {
         "C16" => c16::replay(w),
         "C17" => c17::replay(w),
         "C18" => c18::replay(w),
+        "C19" => c19::replay(w),
+        "C20" => c20::replay(w),
         _ => {
             eprintln!("unknown property id {}", id);
             return 2;
